@@ -707,11 +707,25 @@ func checkWaitSI(c *Check) {
 		c.Gate(afa, rs.At, nthKey("async:mode", i+1), "the escape hatch requires async mode", FieldLit(true, "ASync"))
 		c.Gate(afa, rs.At, nthKey("async:auto-only", i+1), "the escape hatch applies to automatic failover only", CmpLit("==", func(t *Term) bool { return t.IsField("Cause") }, func(t *Term) bool { return t.IsConst(auto) }))
 		c.Gate(afa, rs.At, nthKey("async:lag-configured", i+1), "the escape hatch requires a positive allowed lag", CmpLit("<", func(t *Term) bool { return t.IsConst("0") }, func(t *Term) bool { return t.IsField("AsyncAllowedLag") }))
-		c.Gate(afa, rs.At, nthKey("async:delay-below", i+1), "the escape hatch requires delay < allowed lag", CmpLit("<", func(t *Term) bool {
-			return t.Contains(func(x *Term) bool {
+		c.Gate(afa, rs.At, nthKey("async:delay-below", i+1), "the escape hatch requires delay < allowed lag, the delay (whole seconds from the query) scaled to a duration", CmpLit("<", func(t *Term) bool {
+			isDelay := func(x *Term) bool {
 				r := ResultOf(x, 0)
 				return r != nil && p.IsCall(r, "(*mysql.Node).CalcReplMonTSDelay")
+			}
+			// delay × time.Second: the query answers in seconds, the configured lag is a time.Duration (nanoseconds) —
+			// compared unscaled, every real lag is "below" the limit
+			scaled := t.Contains(func(x *Term) bool {
+				if x.Op != "bin" || x.Name != "*" || len(x.Args) != 2 {
+					return false
+				}
+				for i := 0; i < 2; i++ {
+					if v, ok := intConst(x.Args[i]); ok && v == 1000000000 && x.Args[1-i].Contains(isDelay) {
+						return true
+					}
+				}
+				return false
 			})
+			return scaled
 		}, func(t *Term) bool { return t.IsField("AsyncAllowedLag") }))
 		c.Gate(afa, rs.At, nthKey("async:delay-read", i+1), "the delay was computed without error", p.NilErr("(*mysql.Node).CalcReplMonTSDelay"))
 		c.Gate(afa, rs.At, nthKey("async:timestamp-read", i+1), "the master's published timestamp was read without error", p.NilErr("(*app.App).GetReplMonTS"))
